@@ -8,7 +8,16 @@ PV=/tmp/pv$slot; PR=/tmp/pr$slot
 [ -d "$PR" ] || git -C /repo worktree add --detach "$PR" HEAD >/dev/null 2>&1
 git -C "$PR" checkout -q -- . 2>/dev/null
 mkdir -p "$PV"
-rsync -a --delete --exclude .git --exclude replays --exclude 'lean/.lake' /verif/ "$PV"/
+# the copy is the COMMITTED state of /verif (edits in progress in the working tree must not leak into a running regression);
+# PARRUN_WORKTREE=1 takes the working tree instead (trying an uncommitted change of the machinery on one kept change)
+if [ -n "$PARRUN_WORKTREE" ]; then
+  rsync -a --delete --exclude .git --exclude replays --exclude 'lean/.lake' /verif/ "$PV"/
+else
+  SRC=/tmp/pvsrc$slot; rm -rf "$SRC"; mkdir -p "$SRC"
+  git -C /verif archive HEAD | tar -x -C "$SRC"
+  rsync -a --delete --exclude replays --exclude 'lean/.lake' "$SRC"/ "$PV"/
+  rm -rf "$SRC"
+fi
 [ -d "$PV/lean/.lake" ] || rsync -a /verif/lean/.lake "$PV/lean/"
 # the generated model of the copy (and its gen_clean) must be the one of the reviewed tree: regenerate from the clean worktree
 ( cd "$PV" && XFAB_REPO="$PR" bin/setup >/dev/null 2>&1 )
